@@ -8,6 +8,7 @@ pub mod c13;
 pub mod c16;
 pub mod c17;
 pub mod rel;
+pub mod ptrace;
 
 pub mod c08;
 
@@ -34,6 +35,7 @@ pub fn dispatch(_cmd: &str, _a: &Args) -> bool {
         "c13" => c13::run(_a),
         "c16" => c16::run(_a),
         "c17" => c17::run(_a),
+        "ptrace" => ptrace::run(_a),
         "c10" => rel::c10(_a),
         "c14" => rel::c14(_a),
         "c15" => rel::c15(_a),
